@@ -247,11 +247,28 @@ Definition release_ip (v : variant) (f : fam) (x : item) (vrf s : N) (r : reg) :
 
 (* ---------------------------------------------------------------- DHCPv4 local provider lease table *)
 Record lease := mkLease { l_ip : N; l_mac : N; l_sid : N; l_pool : option N; l_exp : bool }.
+(* plugins/dhcp6/local lease tables (Resolved path).  Lease objects are immutable once created apart from their
+   expiry, and only SessionID is read through the by-address / by-prefix tables, so values are stored directly. *)
+Fixpoint iassoc {A} (k : item) (l : list (item * A)) : option A :=
+  match l with [] => None | (a, b) :: r => if item_eqb a k then Some b else iassoc k r end.
+Fixpoint iunassoc {A} (k : item) (l : list (item * A)) : list (item * A) :=
+  match l with [] => [] | (a, b) :: r => if item_eqb a k then iunassoc k r else (a, b) :: iunassoc k r end.
+Fixpoint passoc {A} (k : N) (l : list (N * A)) : option A :=
+  match l with [] => None | (a, b) :: r => if a =? k then Some b else passoc k r end.
+Fixpoint punassoc {A} (k : N) (l : list (N * A)) : list (N * A) :=
+  match l with [] => [] | (a, b) :: r => if a =? k then punassoc k r else (a, b) :: punassoc k r end.
+Record prov6 := mkProv6 {
+  n_iana : list (N * (N * N * option N));      (* ianaLeases   : DUID -> (address, session, pool name) *)
+  n_addr : list (N * N);                       (* leasesByAddr : address -> session of the lease stored there *)
+  n_pd : list (N * (item * N * option N));     (* pdLeases     : DUID -> (prefix, session, pool name) *)
+  n_pfx : list (item * N)                      (* leasesByPfx  : prefix -> session *)
+}.
 Record prov := mkProv {
   objs : list (N * lease);     (* lease objects (Go pointers) *)
   by_mac : list (N * N);       (* p.leases     : MAC -> object *)
   by_ip : list (N * N);        (* p.leasesByIP : IP  -> object *)
-  next_obj : N
+  next_obj : N;
+  p6 : prov6
 }.
 Fixpoint lassoc (k : N) (l : list (N * lease)) : option lease :=
   match l with [] => None | (a, b) :: r => if a =? k then Some b else lassoc k r end.
@@ -260,7 +277,7 @@ Definition lset (k : N) (v : lease) (l : list (N * lease)) : list (N * lease) :=
 Definition prov_new (pr : prov) (ip mac sid : N) (pool : option N) : prov :=
   let id := next_obj pr in
   mkProv ((id, mkLease ip mac sid pool false) :: objs pr) (setassoc mac id (by_mac pr))
-         (setassoc ip id (by_ip pr)) (id + 1).
+         (setassoc ip id (by_ip pr)) (id + 1) (p6 pr).
 
 (* Provider.reserveIP.  R3 (Repaired): the expiry take-over drops the stale lease without touching the
    registry (the registry lease belongs to whoever holds it now). *)
@@ -272,13 +289,13 @@ Definition prov_reserve (v : variant) (pr : prov) (r : reg) (ip mac sid : N) (po
       | Some l =>
           if l_mac l =? mac then
             let l' := mkLease (l_ip l) (l_mac l) (l_sid l) (l_pool l) false in
-            (mkProv (lset id l' (objs pr)) (by_mac pr) (by_ip pr) (next_obj pr), r, true)
+            (mkProv (lset id l' (objs pr)) (by_mac pr) (by_ip pr) (next_obj pr) (p6 pr), r, true)
           else if l_exp l then
             let r' := match d3 v, l_pool l with
                       | true, Some k => release_pool Defective F4 k (l_ip l, 0) (l_sid l) r
                       | _, _ => r
                       end in
-            let pr' := mkProv (objs pr) (unassoc (l_mac l) (by_mac pr)) (unassoc ip (by_ip pr)) (next_obj pr) in
+            let pr' := mkProv (objs pr) (unassoc (l_mac l) (by_mac pr)) (unassoc ip (by_ip pr)) (next_obj pr) (p6 pr) in
             (prov_new pr' ip mac sid pool, r', true)
           else (pr, r, false)
       | None => (pr, r, false)
@@ -297,7 +314,7 @@ Definition prov_release (v : variant) (pr : prov) (r : reg) (mac sid : N) : prov
                     | Some k => release_pool v F4 k (l_ip l, 0) sid r
                     | None => r
                     end in
-          (mkProv (objs pr) (unassoc mac (by_mac pr)) (unassoc (l_ip l) (by_ip pr)) (next_obj pr), r')
+          (mkProv (objs pr) (unassoc mac (by_mac pr)) (unassoc (l_ip l) (by_ip pr)) (next_obj pr) (p6 pr), r')
       | None => (pr, r)
       end
   | None => (pr, r)
@@ -307,10 +324,69 @@ Definition prov_age (pr : prov) (mac : N) : prov :=
   | Some id =>
       match lassoc id (objs pr) with
       | Some l => mkProv (lset id (mkLease (l_ip l) (l_mac l) (l_sid l) (l_pool l) true) (objs pr))
-                         (by_mac pr) (by_ip pr) (next_obj pr)
+                         (by_mac pr) (by_ip pr) (next_obj pr) (p6 pr)
       | None => pr
       end
   | None => pr
+  end.
+
+Definition with_p6 (pr : prov) (q : prov6) : prov :=
+  mkProv (objs pr) (by_mac pr) (by_ip pr) (next_obj pr) q.
+(* Provider.handleSolicit / handleRequest with Resolved (client asks for IA_NA and IA_PD; DUID = MAC):
+   a retried SOLICIT of the same session is answered without touching the tables; otherwise reserveIANA, then
+   reservePD; a table entry of another session is a conflict (error, no answer; an IA_NA entry written before a
+   PD conflict stays). *)
+Definition prov6_resolved (q : prov6) (sid duid : N) (isreq : bool) (a6 : option N) (ad : option item)
+           (k6 kd : option N) : prov6 * bool :=
+  let have6 := match a6 with
+               | None => true
+               | Some _ => match passoc duid (n_iana q) with Some (_, s', _) => s' =? sid | None => false end
+               end in
+  let haved := match ad with
+               | None => true
+               | Some _ => match passoc duid (n_pd q) with Some (_, s', _) => s' =? sid | None => false end
+               end in
+  if negb isreq && have6 && haved then (q, true) else
+  let r6 := match a6 with
+            | None => Some q
+            | Some a => match assoc a (n_addr q) with
+                        | Some s' => if s' =? sid
+                                     then Some (mkProv6 ((duid, (a, sid, k6)) :: punassoc duid (n_iana q))
+                                                        (setassoc a sid (n_addr q)) (n_pd q) (n_pfx q))
+                                     else None
+                        | None => Some (mkProv6 ((duid, (a, sid, k6)) :: punassoc duid (n_iana q))
+                                                (setassoc a sid (n_addr q)) (n_pd q) (n_pfx q))
+                        end
+            end in
+  match r6 with
+  | None => (q, false)
+  | Some q1 =>
+      match ad with
+      | None => (q1, true)
+      | Some x => match iassoc x (n_pfx q1) with
+                  | Some s' => if s' =? sid
+                               then (mkProv6 (n_iana q1) (n_addr q1) ((duid, (x, sid, kd)) :: punassoc duid (n_pd q1))
+                                             ((x, sid) :: iunassoc x (n_pfx q1)), true)
+                               else (q1, false)
+                  | None => (mkProv6 (n_iana q1) (n_addr q1) ((duid, (x, sid, kd)) :: punassoc duid (n_pd q1))
+                                     ((x, sid) :: iunassoc x (n_pfx q1)), true)
+                  end
+      end
+  end.
+(* Provider.ReleaseLease(duid) on behalf of session sid: registry release by pool name (only when the lease
+   recorded one), table entries dropped *)
+Definition prov6_release (v : variant) (q : prov6) (r : reg) (duid sid : N) : prov6 * reg :=
+  let '(q1, r1) := match passoc duid (n_iana q) with
+                   | Some (a, _, pool) =>
+                       (mkProv6 (punassoc duid (n_iana q)) (unassoc a (n_addr q)) (n_pd q) (n_pfx q),
+                        match pool with Some k => release_pool v F6 k (a, 0) sid r | None => r end)
+                   | None => (q, r)
+                   end in
+  match passoc duid (n_pd q1) with
+  | Some (x, _, pool) =>
+      (mkProv6 (n_iana q1) (n_addr q1) (punassoc duid (n_pd q1)) (iunassoc x (n_pfx q1)),
+       match pool with Some k => release_pool v FD k x sid r1 | None => r1 end)
+  | None => (q1, r1)
   end.
 
 (* ---------------------------------------------------------------- sessions *)
@@ -340,7 +416,7 @@ Inductive op :=
 | PT (sid : N)
 | ID (isreq bind : bool) (rq : option N) (sid vrf : N) (s4 o4 : option N)
     (* bind: the ACK is recorded (handleAck); rq: the address a REQUEST names in option 50 *)
-| IS (sid vrf : N) (s6 : option N) (spd : option item) (o6 od : option N)
+| IS (isreq : bool) (sid vrf : N) (s6 : option N) (spd : option item) (o6 od : option N)
 | IR (sid : N)
 | IT (sid : N)
 | IA (sid : N).
@@ -353,7 +429,7 @@ Inductive out :=
 | OPi (r : pires) (v4 : option N)
 | OPt
 | OId (isreq : bool) (r : idres) (ctx4 : option N)
-| OIs (adv : option (option N * option item)) (ctx6 : option N) (ctxd : option item)
+| OIs (isreq : bool) (adv : option (option N * option item)) (err : bool) (ctx6 : option N) (ctxd : option item)
 | ORel (ir : bool)
 | OIa.
 
@@ -493,7 +569,7 @@ Definition unresolved (v : variant) (r : reg) (pr : prov) (s0 : sess) (isreq : b
               | Some t => if t =? l_ip l
                           then if prov_net_has r (l_ip l)
                                then Some (mkProv (lset id (mkLease (l_ip l) (l_mac l) (l_sid l) (l_pool l) false) (objs pr))
-                                                 (by_mac pr) (by_ip pr) (next_obj pr), Some (l_ip l))
+                                                 (by_mac pr) (by_ip pr) (next_obj pr) (p6 pr), Some (l_ip l))
                                else (if d7 v then Some (pr, None) else None)
                           else None
               | None => None
@@ -554,33 +630,41 @@ Definition is_ctx (s : sess) (vrf : N) (s6 : option N) (spd : option item) (o6 o
 Definition is_mk (s0 : sess) (a6 : option N) (ad : option item) (b6 : option N) (bd : option item) : sess :=
   mkSess (s_id s0) false (s_prof4 s0) (s_prof6 s0) (s_mac s0) true true (s_vrf s0) (s_ov4 s0) (s_ov6 s0)
          (s_ovd s0) (s_a4 s0) a6 ad None None (s_told s0) false (s_b4 s0) b6 bd.
-Definition step_is_core (v : variant) (st : state) (s0 : sess) : list (state * out) :=
+Definition step_is_core (v : variant) (st : state) (s0 : sess) (isreq : bool) : list (state * out) :=
   match s_prof6 s0 with
-  | None => [(mkState (st_reg st) (put_sess s0 (st_sess st)) (st_prov st), OIs None (s_a6 s0) (s_ad s0))]
+  | None => [(mkState (st_reg st) (put_sess s0 (st_sess st)) (st_prov st), OIs isreq None false (s_a6 s0) (s_ad s0))]
   | Some _ =>
     bindl (acquire v F6 (s_prof6 s0) (s_ov6 s0) (s_vrf s0) (s_id s0) (oitem (s_a6 s0)) (st_reg st)) (fun c6 =>
-      match c6 with (r1, a6, _, ok6) =>
+      match c6 with (r1, a6, k6, ok6) =>
       if negb ok6 then
-        [(mkState r1 (put_sess s0 (st_sess st)) (st_prov st), OIs None (s_a6 s0) (s_ad s0))]
+        [(mkState r1 (put_sess s0 (st_sess st)) (st_prov st), OIs isreq None false (s_a6 s0) (s_ad s0))]
       else
       bindl (acquire v FD (s_prof6 s0) (s_ovd s0) (s_vrf s0) (s_id s0) (s_ad s0) r1) (fun cd =>
-        match cd with (r2, ad, _, okd) =>
+        match cd with (r2, ad, kd, okd) =>
         if negb okd then
           [(mkState r2 (put_sess (is_mk s0 (oaddr a6) (s_ad s0) (s_b6 s0) (s_bd s0)) (st_sess st)) (st_prov st),
-            OIs None (oaddr a6) (s_ad s0))]
+            OIs isreq None false (oaddr a6) (s_ad s0))]
         else
           match a6, ad with
           | None, None =>
-              [(mkState r2 (put_sess (is_mk s0 None None (s_b6 s0) (s_bd s0)) (st_sess st)) (st_prov st), OIs None None None)]
+              [(mkState r2 (put_sess (is_mk s0 None None (s_b6 s0) (s_bd s0)) (st_sess st)) (st_prov st),
+                OIs isreq None false None None)]
           | _, _ =>
-              [(mkState r2 (put_sess (is_mk s0 (oaddr a6) ad (oaddr a6) ad) (st_sess st)) (st_prov st),
-                OIs (Some (oaddr a6, ad)) (oaddr a6) ad)]
+              (* the real local DHCPv6 provider: SOLICIT -> ADVERTISE, REQUEST -> REPLY (which binds) *)
+              match prov6_resolved (p6 (st_prov st)) (s_id s0) (s_mac s0) isreq (oaddr a6) ad k6 kd with
+              | (q', true) =>
+                  [(mkState r2 (put_sess (is_mk s0 (oaddr a6) ad (oaddr a6) ad) (st_sess st)) (with_p6 (st_prov st) q'),
+                    OIs isreq (Some (oaddr a6, ad)) false (oaddr a6) ad)]
+              | (q', false) =>
+                  [(mkState r2 (put_sess (is_mk s0 (oaddr a6) ad (s_b6 s0) (s_bd s0)) (st_sess st)) (with_p6 (st_prov st) q'),
+                    OIs isreq None true (oaddr a6) ad)]
+              end
           end
         end)
       end)
   end.
-Definition step_is (v : variant) (st : state) (s : sess) (vrf : N) (s6 : option N) (spd : option item)
-           (o6 od : option N) : list (state * out) := step_is_core v st (is_ctx s vrf s6 spd o6 od).
+Definition step_is (v : variant) (st : state) (s : sess) (isreq : bool) (vrf : N) (s6 : option N) (spd : option item)
+           (o6 od : option N) : list (state * out) := step_is_core v st (is_ctx s vrf s6 spd o6 od) isreq.
 
 (* IPoE release sequences: handleRelease / cleanupSessions (ir = true) and handleSubscriberTerminate *)
 Definition step_rel (v : variant) (st : state) (s : sess) (ir : bool) : list (state * out) :=
@@ -600,7 +684,9 @@ Definition step_rel (v : variant) (st : state) (s : sess) (ir : bool) : list (st
                  | Some x => release_ip v FD x (s_vrf s) (s_id s) r3
                  | None => [r3]
                  end in
-      map (fun r4 => (mkState r4 (put_sess (set_live s false) (st_sess st)) pr', ORel ir)) rds)).
+      map (fun r4 =>
+             let '(q', r5) := if ir then prov6_release v (p6 pr') r4 (s_mac s) (s_id s) else (p6 pr', r4) in
+             (mkState r5 (put_sess (set_live s false) (st_sess st)) (with_p6 pr' q'), ORel ir)) rds)).
 
 Definition skip (st : state) : list (state * out) := [(st, OSkip)].
 
@@ -626,9 +712,9 @@ Definition step (v : variant) (st : state) (o : op) : list (state * out) :=
       | Some s => if negb (s_ppp s) && s_live s then step_id v st s isreq bind rq vrf s4 o4 else skip st
       | None => skip st
       end
-  | IS sid vrf s6 spd o6 od =>
+  | IS isreq sid vrf s6 spd o6 od =>
       match find_sess sid st with
-      | Some s => if negb (s_ppp s) && s_live s then step_is v st s vrf s6 spd o6 od else skip st
+      | Some s => if negb (s_ppp s) && s_live s then step_is v st s isreq vrf s6 spd o6 od else skip st
       | None => skip st
       end
   | IR sid =>
@@ -652,7 +738,7 @@ Definition step (v : variant) (st : state) (o : op) : list (state * out) :=
 Definition new_sess (id : N) (ppp : bool) (prof4 prof6 : option N) (mac : N) : sess :=
   mkSess id ppp prof4 prof6 mac true false 0 None None None None None None None None None false None None None.
 Definition init_state (ps : list pool) (ss : list sess) : state :=
-  mkState (mkReg ps []) ss (mkProv [] [] [] 0).
+  mkState (mkReg ps []) ss (mkProv [] [] [] 0 (mkProv6 [] [] [] [])).
 
 (* ---------------------------------------------------------------- property-level observables *)
 (* what a live session has been told / records as its own address in a family *)
